@@ -34,7 +34,7 @@ theorem iter_succ (E : Nat → Sig → Env) (s : Rat) (x : Sig) (k : Nat) (h U L
     (b) `noExtrema k h`: k is the least index with an undefined envelope, h = h_k, no earlier fire;
     (c) `noConverge`: only if all `budget o` iterates had envelopes and none fired. -/
 theorem run_spec (E : Nat → Sig → Env) (o : ImfOpts) (x : Sig) : Spec E o x (run E o x) :=
-  loop_spec E o x (budget o) 0 x rfl (fun j hj => absurd hj (Nat.not_lt_zero j)) (by omega)
+  run_spec' E o x
 
 /-- …and the specification admits no other outcome (so it characterises the result exactly). -/
 theorem spec_unique (E : Nat → Sig → Env) (o : ImfOpts) (x : Sig) (r : Outcome)
@@ -91,19 +91,8 @@ theorem convergeError_iff (E : Nat → Sig → Env) (D : Sig → Sig → Rat) (o
     removed, or the first iterate without envelopes. -/
 theorem result_cases (E : Nat → Sig → Env) (D : Sig → Sig → Rat) (o : ImfOpts) (x c : Sig) (f : Bool)
     (h : getNextImfIx E D o x = .imf c f) :
-    ∃ k, k < budget o ∧ (∀ j, j < k → Continues E o x j) ∧ (Fires E o x k c ∨ Vanishes E o x k c) := by
-  have hs := run_spec E o x
-  unfold getNextImfIx at h
-  cases hr : run E o x with
-  | stopped k c' =>
-    rw [hr] at h hs; simp only [finish, ImfResult.imf.injEq] at h
-    obtain ⟨rfl, _⟩ := h
-    exact ⟨k, hs.1, hs.2.1, Or.inl hs.2.2⟩
-  | noExtrema k g =>
-    rw [hr] at h hs; simp only [finish, ImfResult.imf.injEq] at h
-    obtain ⟨rfl, _⟩ := h
-    exact ⟨k, hs.1, hs.2.1, Or.inr hs.2.2⟩
-  | noConverge => rw [hr] at h; simp [finish] at h
+    ∃ k, k < budget o ∧ (∀ j, j < k → Continues E o x j) ∧ (Fires E o x k c ∨ Vanishes E o x k c) :=
+  imf_cases E D o x c f h
 
 /-- Without an energy threshold the continue flag is cleared exactly when the input itself has an
     undefined envelope, and then the input is returned unmodified. -/
@@ -111,22 +100,7 @@ theorem flag_false_iff (E : Nat → Sig → Env) (D : Sig → Sig → Rat) (o : 
     (he : o.energyThresh = none) (hb : 0 < budget o) :
     getNextImfIx E D o x = .imf c false ↔ (c = x ∧ ((E 0 x).1 = none ∨ (E 0 x).2 = none)) := by
   constructor
-  · intro h
-    have hs := run_spec E o x
-    unfold getNextImfIx at h
-    cases hr : run E o x with
-    | stopped k c' => rw [hr] at h; simp [finish, energyFlag, he] at h
-    | noExtrema k g =>
-      rw [hr] at h hs
-      simp only [finish, energyFlag, he, ImfResult.imf.injEq] at h
-      obtain ⟨rfl, hk⟩ := h
-      have hk0 : k = 0 := by simpa using hk
-      subst hk0
-      obtain ⟨_, _, h1, h2⟩ := hs
-      simp only [iter, Option.some.injEq] at h1
-      subst h1
-      exact ⟨rfl, h2⟩
-    | noConverge => rw [hr] at h; simp [finish] at h
+  · exact flag_false_unmodified E D o x c he
   · rintro ⟨rfl, hn⟩
     have : Outcome.noExtrema 0 c = run E o c :=
       spec_unique E o c _ ⟨hb, fun j hj => absurd hj (Nat.not_lt_zero j), rfl, hn⟩
@@ -175,14 +149,8 @@ theorem energy_flag_le (D : Sig → Sig → Rat) (o : ImfOpts) (x c : Sig) (f : 
 
 /-- The returned component has the length of the input (envelopes having the length of their signal). -/
 theorem result_length (E : Nat → Sig → Env) (hE : EnvLen E) (D : Sig → Sig → Rat) (o : ImfOpts)
-    (x c : Sig) (f : Bool) (h : getNextImfIx E D o x = .imf c f) : c.length = x.length := by
-  obtain ⟨k, _, _, hfv⟩ := result_cases E D o x c f h
-  rcases hfv with ⟨g, U, L, h1, h2, _, h4⟩ | ⟨h1, _⟩
-  · have hg := iter_length E hE o.step x k g h1
-    obtain ⟨hu, hl⟩ := hE k g U L h2
-    subst h4
-    simp [hu, hl, hg]
-  · exact iter_length E hE o.step x k c h1
+    (x c : Sig) (f : Bool) (h : getNextImfIx E D o x = .imf c f) : c.length = x.length :=
+  imf_length E hE D o x c f h
 
 /-- `get_next_imf` proper (iteration-independent envelope oracle) is the instance `fun _ => E`:
     every theorem above applies to it. -/
